@@ -966,13 +966,12 @@ impl Circuit {
                             neg_out ^= l.is_negative();
                             l.positive()
                         } else {
-                            let l = l.positive();
-                            debug_assert!(l != Literal::TRUE);
-                            if l == Literal::FALSE {
-                                continue; // x ⊕ ⊥ ≡ x
-                            }
-                            l
+                            l.positive()
                         };
+                        debug_assert!(l != Literal::TRUE);
+                        if l == Literal::FALSE {
+                            continue; // x ⊕ ⊥ ≡ x (also if a gate input was simplified to a constant)
+                        }
                         if l.is_input() && l.get_input().unwrap() >= known_inputs {
                             return Err(l);
                         }
